@@ -255,6 +255,48 @@ for _n, _k in AGGS.items():
     _np_agg(_n, _k)
 
 
+def _np_agg_two_levels(aggname, keys):
+    @unit("C13", f"nonparametric.aggregate_intervals_of_a_second_level.{aggname}", fns=[f"{NP}.get_aggregate_prediction_intervals"])
+    def agg2(h):
+        """the client calls get_aggregate_prediction_intervals once per requested level on ONE model object: the bounds of
+        the SECOND level must be the counted votes plus the sums of that level's own unit bounds (nothing carried over
+        from the first call)"""
+        a1, a2 = 0.7, 0.9
+        cols = tuple(f"{s_}_{a}_turnout" for a in (a1, a2) for s_ in ("lower", "upper")) + ("pred_turnout",)
+        t = Three(h, "turnout", int_extra=cols)
+        for f_ in (t.rep, t.third):
+            for c in cols:
+                f_.cols[c] = f_.cols["results_turnout"]
+        self = model(h, NP)
+        upi = NamedTuple("PredictionIntervals", ["lower", "upper", "conformalization"], [None, None, "conformalization-data"])
+        rp = lambda ev: {"target": "verif_replays:level_independence_replay", "args": ["nonparametric"], "check": "result['exc'] is None and result['ok']"}  # noqa: E731
+        h.default_replay = rp
+        k1, est = h.call_method(self, "get_aggregate_predictions", t.rep, t.nonrep, t.third, list(keys), "turnout")
+        if k1 == "raise":
+            return h.fail("predictions.no_raise", f"raised {est}")
+        out = {}
+        for a in (a1, a2):
+            kind, res = h.call_method(self, "get_aggregate_prediction_intervals", t.rep, t.nonrep, t.third, list(keys), a, upi, "turnout")
+            if kind == "raise":
+                return h.fail("no_raise", f"raised {res}")
+            out[a] = res
+        classification = "county_classification" in keys
+        sR, _ = t.gsum("R", keys, t.res)
+        sT, _ = t.gsum("T", keys, t.res)
+        counted = sR if classification else sR + sT
+        for a in (a1, a2):
+            lN, _ = t.gsum("N", keys, t.nonrep.col(f"lower_{a}_turnout").t)
+            uN, _ = t.gsum("N", keys, t.nonrep.col(f"upper_{a}_turnout").t)
+            rows = z3.And(*out[a].lower.axes[0].facts())
+            h.ensures(f"level_{a}.bounds_are_counted_votes_plus_this_levels_unit_bounds", z3.Implies(rows, z3.And(out[a].lower.t == counted + lN, out[a].upper.t == counted + uN)), replay=rp)
+
+    return agg2
+
+
+for _n, _k in AGGS.items():
+    _np_agg_two_levels(_n, _k)
+
+
 @unit("C13", "nonparametric.two_estimands_one_model", fns=[f"{NP}.get_unit_prediction_intervals", f"{CO}.get_unit_prediction_interval_bounds"])
 def two_estimands(h):
     """the client calls get_unit_prediction_intervals for every estimand on ONE model object: the interval of the
